@@ -13,6 +13,7 @@
 #include <csetjmp>
 #include <cstdlib>
 #include <algorithm>
+#include <type_traits>
 #include <sys/uio.h>
 #include "node.h"
 #include "meta.h"
@@ -26,6 +27,7 @@ const char *mc_rule = "pool of <=5 real nodes named from {a,b,unnamed} with coun
                       "(after/before x all pairs, gnode_add/node_add/gnode_insert/node_insert x all pairs x pos{0,1,2,3,-1,-2}, unlink, move, node/list/tree clone, clear, destroy, swap, switch, relink, relink-after-manual-concatenation, new) "
                       "is executed from each; hist jobs = BFS over histories from hand-made start states (3- and 4-node pools, reaches the same closed state set); "
                       "cxx jobs = the same snapshot exploration with pool nodes created by mpt::node::create plus ~node() at every list position, set_metatype, operator=(reference), destruction of a stack / new'ed parent node; "
+                      "values job = DFS over text lengths x 4 shapes x node/list/tree clone x {copy, copy of copy} with library text metatypes (mpt_meta_new), byte-exact value comparison; "
                       "parse jobs = DFS over all ordered pairs of config texts with <=3 (quick) / <=4 (thorough) entries, nesting <=3, names {a,b}: parse into the empty root, then merge the second text; "
                       "nontrivial = distinct (state,op) transitions executed on the real code whose pre- or post-state contains at least one linked node, resp. parse cases that merge a non-empty text into a populated root";
 
@@ -162,12 +164,12 @@ static bool cmp_forest(const Forest &e, const Forest &g, const std::set<int> &fr
 }
 
 // ------------------------------------------------------------------ the system under exploration
-enum K { CREATE, AFTER, BEFORE, GADD, NADD, GINS, NINS, UNLINK, MOVE, NCLONE, LCLONE, TCLONE, CLEAR, DESTROY, SWAP, SWITCH, RELINK, RESTORE, DTOR, SETMETA, ASSIGN, SCOPE, NK };
+enum K { CREATE, AFTER, BEFORE, GADD, NADD, GINS, NINS, UNLINK, MOVE, NCLONE, LCLONE, TCLONE, CLEAR, DESTROY, SWAP, SWITCH, RELINK, RESTORE, DTOR, SETMETA, ASSIGN, SCOPE, COPY, NK };
 static bool g_cxx = false;   // pool nodes are C++ mpt::node objects (node::create) and the C++ members are part of the alphabet
 static const char *kname[] = { "mpt_node_new", "mpt_gnode_after", "mpt_gnode_before", "mpt_gnode_add", "mpt_node_add", "mpt_gnode_insert", "mpt_node_insert",
 	"mpt_node_unlink", "mpt_node_move", "mpt_node_clone", "mpt_list_clone", "mpt_tree_clone", "mpt_node_clear", "mpt_node_destroy",
 	"mpt_gnode_swap", "mpt_gnode_switch", "mpt_gnode_relink", "mpt_gnode_relink(restore)",
-	"mpt::node::~node", "mpt::node::set_metatype", "mpt::node::operator=", "mpt::node scope end" };
+	"mpt::node::~node", "mpt::node::set_metatype", "mpt::node::operator=", "mpt::node scope end", "mpt::node copy" };
 static const int POS[] = { 0, 1, 2, 3, -1, -2 };
 struct OpD { int k, a, b, pos; };
 static std::vector<OpD> g_ops;
@@ -176,7 +178,8 @@ static void build_ops()
 	g_ops.clear();
 	for (int a = 0; a < g_N; ++a) {
 		for (int k : { CREATE, UNLINK, NCLONE, LCLONE, TCLONE, CLEAR, DESTROY, RELINK, RESTORE }) g_ops.push_back(OpD{k, a, -1, 0});
-		if (g_cxx) { for (int k : { DTOR, SETMETA, ASSIGN }) g_ops.push_back(OpD{k, a, -1, 0}); g_ops.push_back(OpD{SCOPE, a, -1, 0}); g_ops.push_back(OpD{SCOPE, a, -1, 1}); }
+		g_ops.push_back(OpD{RESTORE, a, -1, 1});
+		if (g_cxx) { for (int k : { DTOR, SETMETA, ASSIGN }) g_ops.push_back(OpD{k, a, -1, 0}); g_ops.push_back(OpD{SCOPE, a, -1, 0}); g_ops.push_back(OpD{SCOPE, a, -1, 1}); g_ops.push_back(OpD{COPY, a, -1, 0}); g_ops.push_back(OpD{COPY, a, -1, 1}); }
 		for (int b = 0; b < g_N; ++b) {
 			for (int k : { AFTER, BEFORE, SWAP, SWITCH }) g_ops.push_back(OpD{k, a, b, 0});
 			if (a == b) continue;
@@ -194,11 +197,20 @@ static std::string op_str(const OpD &d)
 	case MOVE: return fmt("mpt_node_move(&%s headed by %s, dst=%s)", d.pos ? "local copy of parent->children" : "list", nn(d.a).c_str(), nn(d.b).c_str());
 	case AFTER: case BEFORE: return fmt("%s(position=%s, insert=%s)", kname[d.k], nn(d.a).c_str(), nn(d.b).c_str());
 	case SWAP: case SWITCH: return fmt("%s(%s, %s)", kname[d.k], nn(d.a).c_str(), nn(d.b).c_str());
+	case RESTORE: return fmt("back links below %s %s, then mpt_gnode_relink(%s)", nn(d.a).c_str(), d.pos ? "left stale (pointing at wrong nodes)" : "zeroed", nn(d.a).c_str());
+	case COPY: return d.pos ? fmt("{ mpt::node b; b = *%s; }", nn(d.a).c_str()) : fmt("{ mpt::node b(*%s); }", nn(d.a).c_str());
 	case DTOR: return fmt("%s->~node(); free()", nn(d.a).c_str());
 	case SCOPE: return fmt("%s made the child of a %s mpt::node which is then destroyed", nn(d.a).c_str(), d.pos ? "new'ed" : "stack");
 	default: return fmt("%s(%s)", kname[d.k], nn(d.a).c_str());
 	}
 }
+
+// mpt::node by-value copies (only compiled when the class allows them): the copy must be an independent node
+template <class N> static typename std::enable_if<std::is_copy_constructible<N>::value, bool>::type copy_construct(N *src) { N b(*src); return true; }
+template <class N> static typename std::enable_if<!std::is_copy_constructible<N>::value, bool>::type copy_construct(N *) { return false; }
+template <class N> static typename std::enable_if<std::is_copy_assignable<N>::value, bool>::type copy_assign(N *src) { N b; b = *src; return true; }
+template <class N> static typename std::enable_if<!std::is_copy_assignable<N>::value, bool>::type copy_assign(N *) { return false; }
+static const bool g_copyable[2] = { std::is_copy_constructible<mpt::node>::value, std::is_copy_assignable<mpt::node>::value };
 
 // ------------------------------------------------------------------ all states of a pool (snapshot jobs)
 // A state up to renaming of equally named slots is a set of root lists; a list is a sequence of trees;
@@ -516,6 +528,7 @@ struct HSys {
 			case RESTORE: if (F.kids[a].empty()) return false; break;
 			case DTOR: case SETMETA: case ASSIGN: if (!g_cxx) return false; break;
 			case SCOPE: if (!g_cxx || !F.single(a)) return false; break;
+			case COPY: if (!g_cxx || !g_copyable[d.pos]) return false; break;
 			}
 		}
 		// ---------------- expectation
@@ -684,8 +697,11 @@ struct HSys {
 			if (d.k == RESTORE) {
 				// "can be used after manual concatenation": forward links (children/next) are the reference
 				std::vector<int> sub; for (int c : F.kids[a]) F.subtree(c, sub);
-				for (int x : sub) { p[x]->prev = 0; p[x]->parent = 0; }
+				// after concatenating by hand the back links are either unset or still those of the old place
+				for (int x : sub) { p[x]->prev = d.pos ? p[x] : 0; p[x]->parent = d.pos ? p[x] : 0; }
+				if (d.pos) sig_cls += ",stale-back-links";
 				if (dep > 1) cnt("relink:restore below depth 1");
+				if (d.pos) cnt("relink:restore with stale back links");
 			}
 			sig = guarded([&] { LIB((mpt::mpt_gnode_relink(pa), 0)); });
 			break; }
@@ -703,6 +719,11 @@ struct HSys {
 			if (d.k == SETMETA) sig = guarded([&] { LIB((pa->set_metatype(nm), 0)); });
 			else sig = guarded([&] { mpt::reference<mpt::metatype> ref(nm); LIB((*pa = ref, 0)); });
 			meta[a] = nm;   // the old value must have been released exactly once (counted below)
+			break; }
+		case COPY: {
+			// a by-value copy and its destruction must leave the source and its surroundings alone
+			sig_cls = std::string(d.pos ? "assign" : "construct") + (F.kids[a].empty() ? ",leaf" : ",with-children") + (F.linked(a) ? ",linked" : ",free");
+			sig = guarded([&] { if (d.pos) copy_assign(pa); else copy_construct(pa); });
 			break; }
 		case SCOPE: {
 			sig_cls = std::string(d.pos ? "new/delete" : "stack") + (F.kids[a].empty() ? ",leaf" : ",with-children");
@@ -905,6 +926,112 @@ static void parse_case(Run &r, Ctx &x, int part, int parts)
 	asan_error();
 }
 
+// ------------------------------------------------------------------ clone values of library metatypes (stateless DFS)
+// nodes carry text values made by mpt_meta_new (what the parser and mpt_node_append produce): small texts live in the
+// "geninfo" metatype, texts of >= 250 bytes in a buffer metatype; the clone must report the very same bytes, length included
+static bool same_values(const mpt::node *s, const mpt::node *c, const mpt::node *cparent, bool all, bool deep, int depth, std::string &kind, std::string &why)
+{
+	const mpt::node *cprev = 0;
+	for (; s; s = all ? s->next : 0) {
+		std::string where = fmt("depth %d, node '%s'", depth, mpt::mpt_node_ident(s) ? mpt::mpt_node_ident(s) : "");
+		if (!c) { kind = "shape"; why = where + ": copy is missing"; return false; }
+		if (c == s || !ledger_is_live(c)) { kind = "not-a-fresh-node"; why = where + ": copy is not a new node"; return false; }
+		if (c->ident._len != s->ident._len || c->ident._charset != s->ident._charset || memcmp(mpt::mpt_identifier_data(&c->ident), mpt::mpt_identifier_data(&s->ident), s->ident._len)) { kind = "names"; why = where + ": name differs"; return false; }
+		if (c->parent != cparent) { kind = "child-parent"; why = where + ": copy names a wrong parent"; return false; }
+		if (c->prev != cprev) { kind = "sibling-links"; why = where + ": wrong prev link"; return false; }
+		size_t ls = 0, lc = 0; const char *ds = mpt::mpt_node_data(s, &ls), *dc = mpt::mpt_node_data(c, &lc);
+		if (!ds != !dc || ls != lc || (ds && memcmp(ds, dc, ls))) { kind = "values"; why = where + fmt(": source value has %zu bytes, copy has %zu bytes%s", ls, lc, ls == lc ? " with different content" : ""); return false; }
+		const char *ts = mpt::mpt_node_data(s, 0), *tc = mpt::mpt_node_data(c, 0);
+		if (!ts != !tc || (ts && strcmp(ts, tc))) { kind = "values"; why = where + ": text of the copy differs"; return false; }
+		if (deep ? !same_values(s->children, c->children, c, true, true, depth + 1, kind, why) : c->children != 0) { if (kind.empty()) { kind = "shape"; why = where + ": shallow copy has children"; } return false; }
+		cprev = c; c = c->next;
+	}
+	if (all && c) { kind = "shape"; why = "copy has more nodes than the source"; return false; }
+	return true;
+}
+static void destroy_list(mpt::node *n)
+{
+	for (mpt::node *nx; n; n = nx) { nx = n->next; n->next = n->prev = n->parent = 0; if (nx) nx->prev = 0; mpt::mpt_node_destroy(n); }
+}
+// kind 0: mpt_meta_new(text) - NOTE: a binary that links mpt++ gets the C++ overrides of mpt_meta_new / mpt_meta_buffer /
+//         mpt_node_new (metatype::basic up to 254 bytes, io::buffer::metatype above), this harness is such a binary;
+// kind 1: the C "geninfo" metatype (mpt_meta_geninfo + _mpt_geninfo_set), cloned by mptcore/misc/geninfo_clone.c
+static mpt::node *text_node(const char *name, size_t len, int salt, int kind)
+{
+	std::string txt(len, 'x'); for (size_t i = 0; i < len; ++i) txt[i] = (char) ('A' + (i + salt) % 26);
+	struct iovec vec; vec.iov_base = (void *) txt.data(); vec.iov_len = len;
+	mpt::value val; val._type = mpt::type_properties<mpt::span<const char> >::id(true); val._addr = &vec;
+	mpt::metatype *mt;
+	if (kind == 0) mt = mpt::mpt_meta_new(&val);
+	else if ((mt = mpt::mpt_meta_geninfo(len)) && mpt::_mpt_geninfo_set(mt + 1, txt.data(), (int) len) < 0) { mt->unref(); mt = 0; }
+	if (!mt) return 0;
+	mpt::node *n = mpt::mpt_node_new(2);
+	mpt::mpt_identifier_set(&n->ident, name, 1);
+	n->_meta = mt;
+	return n;
+}
+static void value_case(Run &r, Ctx &x)
+{
+	guard_install();
+	static std::vector<size_t> lens;
+	if (lens.empty()) {
+		if (r.tier == Quick) { for (size_t l = 0; l <= 6; ++l) lens.push_back(l); for (size_t l : { 17, 100, 200, 244, 245, 246, 247, 248, 249, 250, 251, 252, 255, 256, 300 }) lens.push_back(l); }
+		else for (size_t l = 0; l <= 320; ++l) lens.push_back(l);
+	}
+	size_t L = lens[x.choose(lens.size())];
+	int shape = (int) x.choose(4), op = (int) x.choose(3), gens = 1 + (int) x.choose(2), kind = (int) x.choose(2);
+	if (kind == 1 && L + 2 > 249) return;     // the C geninfo metatype holds at most 249 bytes of text
+	static const char *shp[] = { "a", "a{b}", "a{b{c}}", "[a b{c}]" };
+	static const char *opn[] = { "mpt_node_clone", "mpt_list_clone", "mpt_tree_clone" };
+	std::string cls = std::string(kind ? "geninfo," : "meta_new,") + (L == 0 ? "empty-text" : (L < 250 ? "small-text" : "large-text"));
+	std::string desc = fmt("%s of %s whose values are texts of %zu.. bytes made by %s, %s", opn[op], shp[shape], L, kind ? "mpt_meta_geninfo" : "mpt_meta_new", gens == 1 ? "copy compared with source" : "copy of the copy compared with source");
+	r.note("%s", desc.c_str());
+	++r.states;
+	static bool warm = false;
+	if (!warm) { warm = true; mpt::node *w = text_node("w", 3, 0, 0), *w2 = text_node("w", 300, 0, 0), *w3 = text_node("w", 3, 0, 1); if (w3) { mpt::node *c = mpt::mpt_node_clone(w3); if (c) mpt::mpt_node_destroy(c); mpt::mpt_node_destroy(w3); } if (w) { mpt::node *c = mpt::mpt_node_clone(w); if (c) mpt::mpt_node_destroy(c); mpt::mpt_node_destroy(w); } if (w2) { mpt::node *c = mpt::mpt_node_clone(w2); if (c) mpt::mpt_node_destroy(c); mpt::mpt_node_destroy(w2); } }
+	static unsigned ncase = 0;
+	if (ledger_live() || (++ncase & 255) == 0) ledger_reset();
+	asan_error();
+	size_t lbase = ledger_live();
+	auto fail = [&](const std::string &k, const std::string &w) { r.violation(std::string(opn[op]) + "|" + cls + "|" + k, desc + " [" + cls + "; " + k + "]: " + w); };
+	mpt::node *a = 0, *b = 0, *c = 0;
+	r.hint(opn[op]);
+	int sig = guarded([&] {
+		Lib l;
+		a = text_node("a", L, 0, kind);
+		if (shape >= 1) b = text_node("b", L + 1, 7, kind);
+		if (shape >= 2) c = text_node("c", L + 2, 13, kind);
+	});
+	if (sig || !a || (shape >= 1 && !b) || (shape >= 2 && !c)) { r.count("value:creation refused (not flagged)"); { Lib l; if (a) mpt::mpt_node_destroy(a); if (b) mpt::mpt_node_destroy(b); if (c) mpt::mpt_node_destroy(c); } return; }
+	{ Lib l;
+	  if (shape == 1) mpt::mpt_gnode_insert(a, 0, b);
+	  if (shape == 2) { mpt::mpt_gnode_insert(a, 0, b); mpt::mpt_gnode_insert(b, 0, c); }
+	  if (shape == 3) { mpt::mpt_gnode_add(a, 0, b); mpt::mpt_gnode_insert(b, 0, c); } }
+	std::vector<mpt::node *> copies; const mpt::node *from = a; bool bad = false;
+	++r.transitions;
+	for (int g = 0; g < gens && !bad; ++g) {
+		mpt::node *cp = 0;
+		sig = guarded([&] { cp = op == 0 ? LIB(mpt::mpt_node_clone(from)) : (op == 1 ? LIB(mpt::mpt_list_clone(from)) : LIB(mpt::mpt_tree_clone(from))); });
+		if (sig) { fail(signame(sig), "the call faults"); bad = true; break; }
+		if (asan_error()) { fail("asan", "memory error while cloning"); bad = true; break; }
+		if (!cp) { fail("refused", "clone failed without an allocation failure"); bad = true; break; }
+		copies.push_back(cp); from = cp;
+	}
+	if (!bad) {
+		std::string kind, why;
+		if (!same_values(a, copies.back(), 0, op == 1, op != 0, 0, kind, why)) { fail(kind, why); bad = true; }
+		else if (asan_error()) { fail("asan", "memory error while reading the values"); bad = true; }
+		else { r.count("value:" + cls + " clone compared byte-exact"); if (gens > 1) r.count("value:clone of clone"); if (shape >= 2 && op != 0) r.count("nontrivial"); }
+	}
+	sig = guarded([&] { Lib l; for (mpt::node *cp : copies) destroy_list(cp); destroy_list(a); });
+	if (!bad) {
+		if (sig) fail(signame(sig), "destroying source and copies faults");
+		else if (asan_error()) fail("asan", "memory error while destroying source and copies");
+		else if (ledger_live() != lbase) fail("not-released", fmt("%zu allocations survive the destruction of source and copies", ledger_live() - lbase));
+	}
+	asan_error();
+}
+
 // ------------------------------------------------------------------ jobs
 // job "hist:<names>:<init>,<init>..:<depth>"   /   "parse"
 static void multisets(int n, std::vector<std::string> &out, std::string cur = "", int from = 0)
@@ -929,6 +1056,7 @@ void mc_jobs(Tier t, std::vector<std::string> &jobs)
 	if (t == Thorough) for (const char *s : { "aab--", "aabb-", "ab---" }) for (int k = 0; k < 8; ++k) jobs.push_back(fmt("cxx:%s:%d/8", s, k));
 	if (t == Quick) for (int k = 0; k < 16; ++k) jobs.push_back(fmt("snap:aab--:%d/16", k));
 	else for (auto &s : m5) for (int k = 0; k < 8; ++k) jobs.push_back(fmt("snap:%s:%d/8", s.c_str(), k));
+	jobs.push_back("values");
 	for (int k = 0; k < 16; ++k) jobs.push_back(fmt("parse:%d/16", k));
 }
 static int setup(const std::string &job, std::vector<uint64_t> &inits)
@@ -956,12 +1084,16 @@ static const char *required[] = {
 	"move:leading-elements-moved", "move:children-reparented", "move:children-merged", "move:later-element-moved", "move:nothing-to-move",
 	"move:root list, local head", "move:child list, separate local head", "move:child list, &parent->children", "move:child list, separate local head, first element moved",
 	"dtor:root,first,leaf", "dtor:root,first,with-children", "dtor:root,middle,leaf", "dtor:root,last,leaf", "dtor:root,only,with-children", "dtor:child,first,leaf", "dtor:child,middle,leaf", "dtor:child,last,with-children", "dtor:child,only,leaf",
-	"relink:restore below depth 1", "observer:traversals(4 orders x 3 filters per root list)",
+	"relink:restore below depth 1", "relink:restore with stale back links",
+	"value:meta_new,small-text clone compared byte-exact", "value:meta_new,large-text clone compared byte-exact", "value:meta_new,empty-text clone compared byte-exact",
+	"value:geninfo,small-text clone compared byte-exact", "value:geninfo,empty-text clone compared byte-exact", "value:clone of clone", "observer:traversals(4 orders x 3 filters per root list)",
 	"parse:into empty root", "parse:merge into populated root" };
 void mc_explore(Run &r, const std::string &job)
 {
 	for (const char *k : required) r.require(k);
-	for (int k = 0; k < NK; ++k) r.require(std::string("op:") + kname[k]);
+	for (int k = 0; k < NK; ++k) if (k != COPY || g_copyable[0] || g_copyable[1]) r.require(std::string("op:") + kname[k]);
+	if (!g_copyable[0] && !g_copyable[1]) r.count("cxx:mpt::node is not copyable (by-value copy refused at compile time)");
+	if (job == "values") { dfs(r, [&](Ctx &x) { value_case(r, x); }); return; }
 	if (job.compare(0, 6, "parse:") == 0) { int k = atoi(job.c_str() + 6), n = atoi(job.c_str() + job.find('/') + 1); dfs(r, [&](Ctx &x) { parse_case(r, x, k, n); }); return; }
 	std::vector<uint64_t> inits;
 	int depth = setup(job, inits);
@@ -971,6 +1103,7 @@ void mc_explore(Run &r, const std::string &job)
 }
 void mc_replay(Run &r, const std::string &job, const Vec &v)
 {
+	if (job == "values") { dfs_replay(r, [&](Ctx &x) { value_case(r, x); }, v); return; }
 	if (job.compare(0, 6, "parse:") == 0) { int k = atoi(job.c_str() + 6), n = atoi(job.c_str() + job.find('/') + 1); dfs_replay(r, [&](Ctx &x) { parse_case(r, x, k, n); }, v); return; }
 	std::vector<uint64_t> inits;
 	setup(job, inits);
